@@ -467,9 +467,12 @@ size_t varintAdaptiveEncode(uint8_t *dst, const uint64_t *values, size_t count,
         }
     } else if (encodingType == VARINT_ADAPTIVE_PFOR) {
         varintPFORMeta pforMeta;
-        varintPFORComputeThreshold(values, (uint32_t)count,
-                                   VARINT_PFOR_THRESHOLD_95, &pforMeta);
-        if (varintPFORSize(&pforMeta) + 1 > varintAdaptiveMaxSize(count)) {
+        /* If the analysis itself cannot allocate, its zeroed metadata says
+         * nothing about the size: do not let PFOR through unchecked. */
+        if (varintPFORComputeThreshold(values, (uint32_t)count,
+                                       VARINT_PFOR_THRESHOLD_95, &pforMeta) ==
+                VARINT_WIDTH_INVALID ||
+            varintPFORSize(&pforMeta) + 1 > varintAdaptiveMaxSize(count)) {
             encodingType = VARINT_ADAPTIVE_TAGGED;
         }
     }
